@@ -838,7 +838,10 @@ type CompPlan struct {
 }
 
 var compValidFixed = []string{`{"cache":{"lock_shards":1}}`, `{"cache":{"lock_shards":7}}`, `{"cache":{"type":"file"}}`, `{"cache":{"type":"memory"}}`, `{"cache":{"memory":{"memory_budget_percent":0}}}`,
-	`{"cache":{"file":{"dir":"other-cache"}}}`, `{"proxy":{"listen":":7777"}}`, `{"cache":{"max_cache_size":"1B"}}`, `{"cache":{"cleanup_interval":"50ms"}}`}
+	`{"cache":{"file":{"dir":"other-cache"}}}`, `{"proxy":{"listen":":7777"}}`, `{"cache":{"max_cache_size":"1B"}}`, `{"cache":{"cleanup_interval":"50ms"}}`,
+	// several logging settings in one update: each has its own handler, and they all rebuild the log writers
+	`{"logging":{"file":"var/alt.log","max_backups":2}}`, `{"logging":{"file":"var/alt2.log","compress":true,"max_backups":1}}`, `{"logging":{"max_size":"2M","compress":true}}`,
+	`{"logging":{"file":"var/alt.log","max_size":"3M","level":"WARN"}}`}
 
 var compValid = []string{
 	`{"cache":{"max_cache_size":"%dB"}}`, `{"cache":{"cleanup_interval":"%dms"}}`, `{"cache":{"memory":{"memory_budget_percent":%d}}}`, `{"logging":{"level":"%s"}}`,
@@ -851,7 +854,7 @@ var compInvalid = []string{
 	`{"cache":{"type":"disk"}}`, `{"cache":{"file":{"dir":""}}}`, `{"proxy":{"listen":""}}`, `{"logging":{"level":"LOUD"}}`, `{"logging":{"level":5.5}}`,
 	`{"cache":{"max_cache_size":"4096B","cleanup_interval":"0s"}}`, `{"cache":{"cleanup_interval":"250ms","max_cache_size":"0B"}}`, `{"logging":{"level":"DEBUG"},"cache":{"type":"disk"}}`,
 	`{"cache":{"memory":{"memory_budget_percent":40}},"proxy":{"listen":""}}`, `{"cache":{"max_cache_size":"8192B"},"webserver":{"listen":""}}`,
-	`{"cache":{"lock_shards":0}}`, `{"cache":{"lock_shards":-3}}`, `{"cache":{"lock_shards":"many"}}`, `{"proxy":{"listen":"","ca_cert":"x"}}`, `{"cache":{"file":{"dir":""}},"logging":{"level":"WARN"}}`,
+	`{"cache":{"lock_shards":0}}`, `{"cache":{"lock_shards":-3}}`, `{"cache":{"lock_shards":"many"}}`, `{"cache":{"lock_shards":1099511627776}}`, `{"cache":{"lock_shards":4503599627370496}}`, `{"proxy":{"listen":"","ca_cert":"x"}}`, `{"cache":{"file":{"dir":""}},"logging":{"level":"WARN"}}`,
 	`{"cache":{"max_cache_size":"3G M"}}`, `{"cache":{"max_cache_size":"K"}}`, `{"cache":{"max_cache_size":"99999999999999999999B"}}`,
 	// a workable value for one setting next to an ill-typed one for another: refused while the document
 	// is being read, possibly after the first setting has already been taken in
@@ -1242,6 +1245,10 @@ func runCompPlan(t *testing.T, planAny any, ctl Ctl) *Result {
 								res.violate("C18.c", "accepted-config-cannot-start: "+panicClass(fmt.Sprint(r)), "starting a cache under the accepted configuration (type %s, lock_shards %d, max_cache_size %d, cleanup_interval %v) panicked: %v [history: %s]", ncfg.Cache.Type.Read(), ncfg.Cache.LockShards.Read(), ncfg.Cache.MaxCacheSize.Read().Bytes(), ncfg.Cache.CleanupInterval.Read().Cast(), r, history)
 							}
 						}()
+						if n := ncfg.Cache.LockShards.Read(); n > 1<<24 {
+							// do not try: the lock table alone would be hundreds of megabytes to terabytes
+							panic(fmt.Sprintf("lock table with %d entries cannot be allocated", n))
+						}
 						ctx2, cancel2 := context.WithCancel(context.Background())
 						var c2 cache.Cache[CMeta]
 						restartCleanup = func() {
@@ -1286,6 +1293,7 @@ func runCompPlan(t *testing.T, planAny any, ctl Ctl) *Result {
 		if restartCleanup != nil {
 			restartCleanup() // the run ended before the actor got to it
 		}
+		logging.VerifReset() // closes the file writer (its goroutine lives in this bubble)
 		s.Drain(func(string) bool { return true })
 		for i := 0; i < 20; i++ {
 			synctest.Wait()
